@@ -102,8 +102,10 @@ class GenericTunnelTLV(TunnelTypeTLV):
     def pack(self) -> bytes:
         return pack('!HH', self._tunnel_type, len(self._packed)) + self._packed
 
+    # the attribute is compared and indexed through str() of what it holds: the value is part of it,
+    # or two attributes with different contents under an unknown tunnel type were the same attribute
     def __str__(self) -> str:
-        return f'tunnel-type:{self._tunnel_type}'
+        return f'tunnel-type:{self._tunnel_type} {hexstring(self._packed)}'
 
     @classmethod
     def unpack(cls, data: Buffer) -> GenericTunnelTLV:
